@@ -38,7 +38,7 @@ AXATTRS = {"long_name": "first axis", "lst": [3]}
 
 
 def budget(tier):
-    return {"quick": dict(examples=200, shards=1), "thorough": dict(examples=600, shards=16)}[tier]
+    return {"quick": dict(examples=200, shards=1), "thorough": dict(examples=2000, shards=16)}[tier]
 
 
 @st.composite
